@@ -1,8 +1,9 @@
 #!/bin/bash
 # tools/eval_seeded.sh cNN [CHECKS...] : evaluate the seeded change in /tmp/mut/cNN/out against the checks
 # (default: the check of the same id). Uses a scratch worktree /tmp/ev/cNN (removed afterwards unless KEEP=1).
+# MUTROOT=/tmp/mut2 SUFFIX=b evaluates a second-wave change: read from /tmp/mut2/cNN/out, kept as seeded/CNNb.
 n=$1; shift; N=${n^^}; checks=${@:-$N}
-M=/tmp/mut/$n; E=/tmp/ev/$n; S=/verif/seeded/$N
+M=${MUTROOT:-/tmp/mut}/$n; E=/tmp/ev/$n$SUFFIX; S=/verif/seeded/$N$SUFFIX
 mkdir -p $S /tmp/ev
 [ -d $M/out ] && cp -r $M/out/. $S/
 git -C /repo worktree remove --force $E 2>/dev/null; rm -rf $E
